@@ -1,5 +1,6 @@
 """C15 - equivalent ways of writing a project give the same schedule."""
 import copy
+import os
 import re
 from collections import Counter
 
@@ -83,13 +84,26 @@ OPTS = ("gap", "onstart", "onend", "maxgap", "gaplen")
 
 def decorate(rng, ap):
     """give some dependencies options that the generators do not use (each alone and combined):
-    maxgapduration, gaplength"""
-    for _, n in projects.walk(ap["tasks"]):
+    maxgapduration, gaplength.  maxgapduration only where the edge is the successor's sole constraint (leaf to leaf, no
+    other own, inherited or inverted dependency, no start of its own or of a container): together with competing
+    constraints the scheduler's handling of it depends on the spelling - known finding K03, kept as a fixed case"""
+    edges = projects.all_edges(ap)
+    idx = projects.task_index(ap)
+
+    def sole(succ, pred):
+        succ, pred = tuple(succ), tuple(pred)
+        if succ not in idx or pred not in idx or "kids" in idx[succ] or "kids" in idx[pred]:
+            return False
+        if any(idx[succ[:k]].get("start") is not None or idx[succ[:k]].get("end") is not None for k in range(1, len(succ) + 1)):
+            return False
+        return len(edges.get(succ, [])) == 1
+    for p, n in projects.walk(ap["tasks"]):
         for key in ("deps", "precedes"):
             for d in n.get(key, []) or []:
                 k = rng.random()
                 if k < 0.3:
-                    d["maxgap"] = rng.choice([60, 120, 480])
+                    if sole(p, d["to"]) if key == "deps" else sole(d["to"], p):
+                        d["maxgap"] = rng.choice([60, 120, 480])
                 elif k < 0.4 and not ap.get("alap"):
                     d["gaplen"] = rng.choice([60, 120, 240])
                     d.pop("gap", None)
@@ -157,8 +171,6 @@ def rw_shift(rng, ap):
     ap2 = copy.deepcopy(ap)
     n_shift = 0
     for _, n in projects.walk(ap2["resources"]):
-        if "kids" in n:
-            continue
         if n.get("shift"):
             n["hours"] = copy.deepcopy(ap2["shifts"][n["shift"]])
             del n["shift"]
@@ -197,10 +209,24 @@ def rw_macro(rng, ap):
     if not cand:
         return text, None
     macros = []
+    attr = re.compile(r"^\s+(effort|priority|allocate|depends|precedes) ")
+    used = set()
     for k, i in enumerate(rng.sample(cand, min(3, len(cand)))):
+        if i in used or i + 1 in used:
+            continue
         name = f"mac{k}"
-        macros.append(f"macro {name} [ {lines[i].strip()} ]")
-        lines[i] = re.match(r"^\s+", lines[i]).group(0) + "${" + name + "}"
+        nxt = lines[i + 1] if i + 1 < len(lines) else ""
+        if rng.random() < 0.6 and attr.match(nxt) and nxt.count("{") == nxt.count("}") and "]" not in nxt and "${" not in nxt:
+            # a body of several lines, with a comment of any kind on the first one
+            note = rng.choice(["  // set by the planning office", "  # set by the planning office", "  /* set by the planning office */", ""])
+            macros.append(f"macro {name} [\n  {lines[i].strip()}{note}\n  {nxt.strip()}\n]")
+            lines[i] = re.match(r"^\s+", lines[i]).group(0) + "${" + name + "}"
+            lines[i + 1] = ""
+            used |= {i, i + 1}
+        else:
+            macros.append(f"macro {name} [ {lines[i].strip()} ]")
+            lines[i] = re.match(r"^\s+", lines[i]).group(0) + "${" + name + "}"
+            used.add(i)
     return "\n".join(macros) + "\n" + "\n".join(lines), None
 
 
@@ -273,7 +299,7 @@ REWRITES = {"rename": rw_rename, "refstyle": rw_refstyle, "precedes": rw_precede
 def run(ctx):
     nob, ndis, failing, files = common.obligations(ctx, PROPS)
     base = []
-    for fam, nq, nt in (("deps", 80, 800), ("coredeps", 60, 600), ("hours", 50, 500), ("core", 30, 300), ("alap", 30, 300), ("dupprec", 80, 600)):
+    for fam, nq, nt in (("deps", 80, 800), ("coredeps", 60, 600), ("hours", 50, 500), ("core", 30, 300), ("alap", 30, 300), ("dupprec", 80, 600), ("grouphours", 40, 300)):
         base += gens.family(ctx, fam, ctx.n(nq, nt))
     for ap in base[::2]:
         decorate(ctx.rng, ap)
@@ -315,6 +341,21 @@ def run(ctx):
         if diff:
             bad.append({"what": f"rewrite '{name}' changed reported dates", "differences": dict(list(diff.items())[:4]),
                         "original": projects.render(ap), "rewritten": t})
+    # K03 (known finding, fixed case): one edge written as 'precedes { maxgapduration }' on the predecessor or as
+    # 'depends { maxgapduration }' on the successor, next to competing constraints on the same successor
+    known_lines = []
+    here = os.path.dirname(os.path.abspath(__file__))
+    kt = [open(os.path.join(here, x)).read() for x in ("c15_k03_a.tjp", "c15_k03_b.tjp")]
+    kr = common.run_workers(ctx, "w_sched", [{"text": t, "ledger": False, "timeout": 60} for t in kt])
+    if all(r.get("ok") for r in kr):
+        da, db = (r["obs"]["scenarios"][0]["tasks"] for r in kr)
+        if any((da[k]["sched"], da[k]["start"], da[k]["end"]) != (db[k]["sched"], db[k]["start"], db[k]["end"]) for k in da):
+            k = common.match_known("C15", "K03 maxgapduration next to competing constraints depends on the spelling")
+            if k:
+                known_lines.append(f"KNOWN-FINDING: property=C15 {k['what']}")
+            else:
+                bad.append({"what": "rewrite 'precedes' changed reported dates (fixed case K03)", "original": kt[0], "rewritten": kt[1]})
+    stats["K03_reproduced"] = len(known_lines)
     violations, seen = [], set()
     for b in bad:
         if b["what"] in seen:
@@ -327,7 +368,9 @@ def run(ctx):
         violations.append({"no_input": True, "replay": common.write_replay(ctx, {"property": "C15", "kind": "proof obligation no longer checks; no failing input found", "failing_obligations": failing})})
     cov = {"obligations": nob, "discharged": ndis, "checker_cmd": "tools/coqbuild.sh (coqc 8.16.1 full .vo build)", "trusted_base": common.TRUSTED, "files": files,
            "traces_validated_against_impl": len(texts), "input_distribution": dict(stats), "findings": len(bad),
-           "rule": "each generated project (nested trees, relative/absolute references, precedes, container dependencies, shifts, ALAP) is scheduled as written and under 3 of 6 meaning-preserving rewrites: consistent renaming of task/resource/shift ids (local task ids may then coincide across containers), relative <-> absolute references, depends <-> precedes on the other task (options kept: gapduration, gaplength, maxgapduration, onstart, each alone and combined), shift reference <-> inline hours, comments/whitespace (#, //, /* */, inside-comment braces and quotes), attribute lines moved into macros; all task dates compared (ids mapped back); every written reference (original and renamed projects, where local ids coincide across containers and with top-level ids) is resolved by the extracted Model/Parse.v and the per-task sets of resolved predecessors are compared with the parser's",
+           "rule": "each generated project (nested trees, relative/absolute references, precedes, container dependencies, shifts, ALAP) is scheduled as written and under 3 of 6 meaning-preserving rewrites: consistent renaming of task/resource/shift ids (local task ids may then coincide across containers), relative <-> absolute references, depends <-> precedes on the other task (options kept: gapduration, gaplength, maxgapduration, onstart, each alone and combined), shift reference <-> inline hours (on resources and on resource groups whose members inherit them), comments/whitespace (#, //, /* */, inside-comment braces and quotes), attribute lines moved into macros (one line, or two lines with a #, // or /* */ comment after the first); all task dates compared (ids mapped back); every written reference (original and renamed projects, where local ids coincide across containers and with top-level ids) is resolved by the extracted Model/Parse.v and the per-task sets of resolved predecessors are compared with the parser's",
            "samples": [{"rewrite": metas[0][1], "text": texts[0][:900]}]}
     common.finish(ctx, "proof", cov, violations,
-                  ["partial: the Lark grammar / lexer is not modelled; the theorems cover reference resolution under renaming and the precedes inversion; everything else is decided by the rewrite runs"])
+                  ["partial: the Lark grammar / lexer is not modelled; the theorems cover reference resolution under renaming and the precedes inversion; everything else is decided by the rewrite runs",
+                   "maxgapduration is generated only where it is the successor's sole constraint (K03: next to competing constraints its handling depends on the spelling - recorded known finding, fixed case harness/props/c15_k03_*.tjp)"],
+                  known_lines)
